@@ -295,7 +295,8 @@ def layouts_untouched_bounded_instance():
     from pb_bss.evaluation.module_si_sdr import si_sdr
     from pb_bss.math import solve as ms
 
-    FN = ['psd', 'gev', 'gev-eig', 'pca', 'mvdr', 'souden', 'wmwf', 'lcmv', 'ban', 'phase', 'apply', 'bf-gev', 'bf-rank1', 'masks', 'si_sdr', 'sxr', 'stable_solve']
+    FN = ['psd', 'gev', 'gev-eig', 'pca', 'mvdr', 'souden', 'wmwf', 'lcmv', 'ban', 'phase', 'apply', 'bf-gev', 'bf-rank1', 'masks', 'si_sdr', 'sxr', 'stable_solve',
+          'vuv', 'biased', 'from_cov']
 
     def make(B):
         return {'fn': B.choose('fn', FN), 'layout': B.choose('layout', ['C', 'F', 'H', 'strided']), 'ro': B.choose('ro', [False, True]),
@@ -326,7 +327,8 @@ def layouts_untouched_bounded_instance():
         sig = lay(cn(K, F, T), inp['layout'])
         ref, est = lay(rng.normal(size=(K, 40)), inp['layout']), lay(rng.normal(size=(K, 40)), inp['layout'])
         img, noise_img = lay(rng.normal(size=(K, 2, 40)), inp['layout']), lay(rng.normal(size=(2, 40)), inp['layout'])
-        args = dict(tgt=tgt, noi=noi, atf=atf, w=w, obs=obs, mask=mask, sig=sig, ref=ref, est=est, img=img, noise_img=noise_img)
+        bsig = lay(np.abs(cn(2, 4, 257)) , inp['layout'])
+        args = dict(tgt=tgt, noi=noi, atf=atf, w=w, obs=obs, mask=mask, sig=sig, ref=ref, est=est, img=img, noise_img=noise_img, bsig=bsig)
         if inp['ro']:
             for a in args.values():
                 a.flags.writeable = False
@@ -367,12 +369,27 @@ def layouts_untouched_bounded_instance():
             if fn == 'sxr':
                 o = sx.input_sxr(img, noise_img)
                 return [o.sdr, o.sir, o.snr]
+            if fn == 'vuv':
+                return list(mm.voiced_unvoiced_split_characteristic(257))
+            if fn == 'biased':
+                return mm.biased_binary_mask(np.abs(bsig))
+            if fn == 'from_cov':
+                from pb_bss.distribution.complex_angular_central_gaussian import ComplexAngularCentralGaussian as CACG_
+                m_ = CACG_.from_covariance(tgt, eigenvalue_floor=1e-10, covariance_norm=['eigenvalue', 'trace', False][inp['seed'] % 3])
+                return [np.asarray(m_.covariance_eigenvalues), np.abs(np.asarray(m_.covariance_eigenvectors))]
             return ms.stable_solve(noi, tgt)
         err = None
         try:
             with np.errstate(all='ignore'):
                 r1 = run()
                 changed = [k for k in args if not np.array_equal(before[k], args[k])]
+                # what a call returns belongs to the caller: overwriting it must not influence a later call
+                f1_ = r1 if isinstance(r1, list) else [r1]
+                keep = [np.array(a, copy=True) for a in f1_]
+                for a in f1_:
+                    if isinstance(a, np.ndarray) and a.flags.writeable and a.size:
+                        a[...] = 0
+                r1 = keep
                 r2 = run()
         except Exception as e:  # noqa
             return {'err': '%s: %s' % (type(e).__name__, e), 'changed': [], 'same': True}
